@@ -26,7 +26,7 @@ func allRules() []*Rule {
 		ruleR9(),
 		with(ruleR10(), r10PartialTruncate),
 		with(ruleR11(), r11TagFirst),
-		ruleR12(),
+		with(ruleR12(), r12HandedBackReset),
 		ruleR13(),
 		ruleR14(),
 		ruleR15(),
